@@ -377,8 +377,8 @@ func check(id, tier string) int {
 	seed, _ := strconv.ParseInt(os.Getenv("VERIF_SEED"), 10, 64)
 	pl := planOf(id)
 	bin := build(pl.race)
-	if id == "C19" {
-		os.Setenv("PIKEMC_REALBIN", buildReal(bin)) // C19's real-process tier runs pike's own main()
+	if id == "C19" || id == "C16" {
+		os.Setenv("PIKEMC_REALBIN", buildReal(bin)) // the real-process tiers run pike's own main()
 	}
 	n := pl.shardsQuick
 	dl := pl.deadlineQuick
@@ -688,7 +688,7 @@ func main() {
 		var r replay
 		json.Unmarshal(b, &r)
 		bin := build(planOf(r.Property).race)
-		if r.Property == "C19" {
+		if r.Property == "C19" || r.Property == "C16" {
 			os.Setenv("PIKEMC_REALBIN", buildReal(bin))
 		}
 		cmd := exec.Command(bin, "-replay", os.Args[2])
